@@ -18,6 +18,8 @@
 //!   cvar      cvt tables of 0/1/3/40/300 entries x region sets on 1 and 2 axes x CVT index selections (all, first, last,
 //!             sparse, every, first+last) x shared/private numbers x delta fills x packed delta forms; plus cvar without
 //!             cvt and cvar pointing beyond the cvt
+//!   anchored  composites with a component placed by point numbers (byte / word form; first, middle, last) among xy-offset
+//!             components, with scale / x-y scale / 2x2 transforms and instructions: the component records must survive
 //!   nested    composites of composites (depth 2 and 3), parents before and after their children in glyph order, with and
 //!             without HVAR: flattened extent => glyf header bounding box and left side bearing
 //! thorough adds, for 1-axis fonts, all 32769 normalised coordinate values.
@@ -41,7 +43,7 @@ const M: [i16; 13] = [0, 1, -1, 63, -63, 64, -64, 127, -127, 128, -128, 300, -30
 /// tolerance: one font unit, plus 2^-10 for implementations that keep "at least 16 fractional bits"
 const TOL: (i128, i128) = (1025, 1024);
 
-const FAMILIES: [&str; 9] = ["iup", "regions1", "regions2", "packing", "metrics", "invalid1", "extreme", "nested", "cvar"];
+const FAMILIES: [&str; 10] = ["iup", "regions1", "regions2", "packing", "metrics", "invalid1", "extreme", "nested", "cvar", "anchored"];
 
 // ------------------------------------------------------------------------------------------------ coordinates
 
@@ -1130,6 +1132,73 @@ fn cvt_overflows(font: &VarFont, nc: &[i16]) -> bool {
     eval_cvt(font, nc, &EvalOpts::default()).map_or(false, |v| v.iter().any(|x| x.lt(Rat::int(-32768)) || Rat::int(32767).lt(*x)))
 }
 
+// ---- family anchored: composites with components placed by point numbers, transforms and instructions
+
+fn gen_anchored(idx: &[usize]) -> Option<Case> {
+    let (pos, words, tk, instr, style, layout) = (idx[0], idx[1] == 1, idx[2], idx[3] == 1, idx[4], idx[5]);
+    const XY: u16 = 0x0002 | 0x0004;
+    let square = GlyphDef { shape: Shape::Simple(vec![vec![pt(0, 0, true), pt(100, 0, true), pt(100, 100, true), pt(0, 100, true)]]), advance: 1000, lsb: 0 };
+    let tri = GlyphDef { shape: Shape::Simple(vec![vec![pt(10, 0, true), pt(90, 0, false), pt(50, 80, true)]]), advance: 900, lsb: 10 };
+    // transform of the anchored component: none, scale, x/y scale, 2x2 (with SCALED_COMPONENT_OFFSET)
+    let (tflags, tvals): (u16, Vec<i16>) = match tk {
+        0 => (0, vec![]),
+        1 => (0x0008, vec![8192]),
+        2 => (0x0040, vec![12288, -16384]),
+        _ => (0x0080 | 0x0800, vec![16384, 4096, -4096, 8192]),
+    };
+    // the component placed by point numbers: parent point 2, child point 1
+    let anchored = RawComp { flags: if words { 0x0001 } else { 0 } | tflags, gid: 2, arg1: 2, arg2: 1, transform: tvals.clone() };
+    // xy components: byte sized and word sized offsets; the second one is transformed when the layout says so
+    let xy_small = RawComp { flags: XY, gid: 1, arg1: 10, arg2: -20, transform: vec![] };
+    let xy_big = if layout == 1 { RawComp { flags: XY | 0x0001 | 0x0008 | 0x1000, gid: 2, arg1: 300, arg2: 200, transform: vec![-8192] } } else { RawComp { flags: XY | 0x0001, gid: 2, arg1: 300, arg2: 200, transform: vec![] } };
+    let mut comps = vec![xy_small, xy_big];
+    comps.insert(pos, anchored.clone());
+    if instr {
+        comps.last_mut().unwrap().flags |= 0x0100;
+    }
+    // a second composite: one xy component followed by two anchored ones (byte and word form)
+    let second = vec![
+        RawComp { flags: XY, gid: 1, arg1: -5, arg2: 7, transform: vec![] },
+        RawComp { flags: if words { 0 } else { 0x0001 }, gid: 2, arg1: 3, arg2: 0, transform: vec![] },
+        RawComp { flags: anchored.flags | if instr { 0x0100 } else { 0 }, gid: 1, arg1: 1, arg2: 2, transform: tvals },
+    ];
+    let glyphs = vec![
+        empty_glyph(600),
+        square,
+        tri,
+        GlyphDef { shape: Shape::RawComposite([0, -20, 400, 280], comps), advance: 2000, lsb: 0 },
+        GlyphDef { shape: Shape::RawComposite([-5, 0, 100, 107], second), advance: 2100, lsb: -5 },
+    ];
+    let mut gvar: Vec<Option<GlyphVar>> = vec![None, None, None];
+    for g in 3..5 {
+        let comps = match &glyphs[g].shape {
+            Shape::RawComposite(_, c) => c.clone(),
+            _ => unreachable!(),
+        };
+        let n = comps.len();
+        let mut tuples = Vec::new();
+        for k in 0..2 {
+            let full: Vec<(i16, i16)> = (0..n + 4)
+                .map(|j| if j < n { (M[(g + 2 * j + 5 * k + 3) % 13], M[(3 * g + j + 7 * k + 1) % 13]) } else { [(-(20 + g as i16), 0), (150 + 10 * k as i16, 0), (0, 5), (0, -6)][j - n] })
+                .collect();
+            // style 0: deltas for every "point" (also for the anchored components, which must ignore them);
+            // style 1: an explicit list that leaves the anchored components out, as the specification recommends
+            let (points, deltas) = if style == 0 {
+                (PointSel::All, full)
+            } else {
+                let l: Vec<u16> = (0..n + 4).filter(|j| *j >= n || comps[*j].flags & 0x0002 != 0).map(|j| j as u16).collect();
+                let d = l.iter().map(|j| full[*j as usize]).collect();
+                (PointSel::List(l), d)
+            };
+            tuples.push(tuple(vec![if k == 0 { ONE } else { -ONE }], None, points, deltas));
+        }
+        gvar.push(Some(GlyphVar { tuples, shared_points: None, shared_pt_pack: PtPack::default() }));
+    }
+    let font = base_font(vec![axis(0, 0)], glyphs, gvar);
+    let coords = landmarks(&[(0, ONE, ONE), (-ONE, -ONE, 0)]).into_iter().map(|c| vec![c]).collect();
+    Some(Case { font, kinds: vec![0], coords, hvar_inconsistent: false, extreme: false })
+}
+
 // ---- dispatch
 
 fn gen(family: &str, idx: &[usize]) -> Option<Case> {
@@ -1143,6 +1212,7 @@ fn gen(family: &str, idx: &[usize]) -> Option<Case> {
         "extreme" => gen_extreme(idx),
         "nested" => gen_nested(idx),
         "cvar" => gen_cvar(idx),
+        "anchored" => gen_anchored(idx),
         _ => None,
     }
 }
@@ -1158,6 +1228,7 @@ fn dims(family: &str, thorough: bool) -> Vec<usize> {
         "extreme" => vec![4],
         "nested" => vec![2, 2, 3, 2],
         "cvar" => vec![7, 8, 6, 2, 5, 8],
+        "anchored" => vec![3, 2, 4, 2, 2, 2],
         _ => vec![],
     }
 }
@@ -1277,6 +1348,34 @@ fn glyph_diff(shape: &Shape, e: &GlyphEval, out: &OutGlyph, exact: bool) -> Opti
             }
             None
         }
+        (Shape::RawComposite(_, comps), OutGlyph::Composite { comps: oc, instructions, .. }) => {
+            // the component records must survive instancing: same glyph ids, transforms, instructions and flags. The only
+            // flag instancing may change is ARG_1_AND_2_ARE_WORDS (0x0001), and only together with the argument size -
+            // the reader above has already parsed the arguments with the size the flag announces and rejected records
+            // with left-over bytes. Components placed by point numbers keep their numbers; xy offsets take the deltas.
+            if comps.len() != oc.len() {
+                return Some(format!("structure: {} components became {}", comps.len(), oc.len()));
+            }
+            for (i, (c, o)) in comps.iter().zip(oc).enumerate() {
+                let want_flags = (c.flags & !0x0020) | if i + 1 < comps.len() { 0x0020 } else { 0 };
+                if c.gid != o.gid || (want_flags ^ o.flags) & !0x0001 != 0 || c.transform != o.transform {
+                    return Some(format!("structure: component {} (glyph {}, flags {:#06x}, transform {:?}) became glyph {}, flags {:#06x}, transform {:?}", i, c.gid, want_flags, c.transform, o.gid, o.flags, o.transform));
+                }
+                if c.flags & 0x0002 == 0 {
+                    let (p1, p2) = if c.flags & 0x0001 != 0 { (c.arg1 as u16 as i32, c.arg2 as u16 as i32) } else { (c.arg1 as u8 as i32, c.arg2 as u8 as i32) };
+                    if (p1, p2) != (o.arg1, o.arg2) {
+                        return Some(format!("structure: component {} point numbers ({}, {}) became ({}, {})", i, p1, p2, o.arg1, o.arg2));
+                    }
+                } else if !ok(e.pts[i].0, o.arg1) || !ok(e.pts[i].1, o.arg2) {
+                    return Some(format!("component {} offset: expected ({}, {}) got ({}, {})", i, e.pts[i].0.to_f64(), e.pts[i].1.to_f64(), o.arg1, o.arg2));
+                }
+            }
+            let want_instr: &[u8] = if comps.last().map_or(false, |c| c.flags & 0x0100 != 0) { &RAW_COMPOSITE_INSTRUCTIONS } else { &[] };
+            if instructions.as_slice() != want_instr {
+                return Some(format!("structure: composite instructions {:?} became {:?}", want_instr, instructions));
+            }
+            None
+        }
         (s, o) => Some(format!("structure: {} became {}", shape_kind(s), out_kind(o))),
     }
 }
@@ -1388,7 +1487,11 @@ fn compare(s: &Subject<'_>, prepared: &Prepared<'_>, o: &Observed, at_default: b
         if let Some(d) = hv_lsb {
             lsb_want.push(Rat::int(font.glyphs[g].lsb as i64).add(d));
         }
-        if hv_lsb.is_none() || s.case.hvar_inconsistent {
+        if let (Shape::RawComposite(..), Some(hd)) = (shape, header) {
+            // components placed by point numbers or transformed: the flattened extent is not modelled (see the assumption);
+            // the side bearing must still be consistent with the xMin the instance declares for the glyph
+            lsb_want.push(Rat::int(hd[0] as i64).sub(e.phantom_x[0]));
+        } else if hv_lsb.is_none() || s.case.hvar_inconsistent {
             match prepared.instanced_xmin(g, nc) {
                 Some(x) => {
                     lsb_want.push(x.sub(e.phantom_x[0]));
@@ -1408,7 +1511,8 @@ fn compare(s: &Subject<'_>, prepared: &Prepared<'_>, o: &Observed, at_default: b
             let key = if hv_lsb.is_some() { "C12:hvar:lsb-mismatch" } else { "C12:phantom-points:lsb-mismatch" };
             bad.push((key.into(), json!({"glyph": g, "normalised": nc, "expected_lsb": lsb_want.iter().map(|w| w.to_f64()).collect::<Vec<_>>(), "got_lsb": lsb})));
         }
-        if at_default && (adv != font.glyphs[g].advance || lsb != font.glyphs[g].lsb) && e.applicable == 0 {
+        let lsb_exact = !matches!(shape, Shape::RawComposite(..));
+        if at_default && (adv != font.glyphs[g].advance || (lsb_exact && lsb != font.glyphs[g].lsb)) && e.applicable == 0 {
             bad.push(("C12:default-instance-differs-from-default-master".into(), json!({"glyph": g, "source_metrics": [font.glyphs[g].advance as i64, font.glyphs[g].lsb as i64], "got": [adv as i64, lsb as i64]})));
         }
     }
@@ -1867,6 +1971,7 @@ pub fn run(ctx: &Ctx) {
     ctx.assume("the glyf header bounding box is the box of all points of the (flattened) outline, on- and off-curve ('coordinate data'); it is demanded for composites and for simple glyphs whose points moved, against the exact model or the rounded output outline, each value within one unit");
     ctx.assume("cvar: cvt[i] = default + sum scalar * delta, any rounding of the sum within one unit is accepted (the specification says the deltas are applied to the CVT values and is silent on rounding; fontTools and allsorts round the summed delta once); entries no region touches must be byte-identical; an entry whose exact value leaves the int16 range has no correct value (any value, or a clean error, is accepted)");
     ctx.assume("cvar without a cvt table, or referring to a CVT index beyond the table, is malformed: the specification gives no rule; a clean error or an instance that ignores the variation is accepted, a panic is not");
+    ctx.assume("family anchored: the component records of the instance are compared (glyph ids, flags except ARG_1_AND_2_ARE_WORDS, point numbers, transforms, instructions; xy offsets = default + scaled delta within one unit; point-number components ignore deltas as gvar prescribes). The flattened extent of composites with anchored or transformed components is not modelled (allsorts places anchored components at offset zero, known finding of C16): their header bounding box is not compared and their left side bearing is checked against the xMin the instance itself declares");
     ctx.assume("STAT is not a variation table (static fonts carry it); fvar, avar, gvar, cvar, HVAR, MVAR, VVAR must be absent from the output");
     ctx.assume("packed deltas are encoded with runs that do not span the boundary between the x and y arrays (FreeType and HarfBuzz decode the two arrays separately)");
     ctx.assume("model fonts: axis tags TSTA/TSTB (no wght/wdth/slnt side effects on OS/2), axes -1..0..1, -16384..0..16384 and 0..0..1 so that user values hit normalised grid values exactly");
